@@ -16,6 +16,7 @@ func All() []core.Prop {
 		C15{},
 		C16{},
 		C17{},
+		C18{},
 		C20{},
 	}
 }
